@@ -873,6 +873,8 @@ def run_exec(ctx, pid):
 def run(ctx):
     ctx.level = 'model_checking'
     run_exec(ctx, ctx.pid)
+    from checks import c07_noop
+    c07_noop.run_noop(ctx)
     ctx.set(rule='every schedule of the executor threads with at most the '
                  'stated number of preemptions, per scenario (exit / cancel / '
                  'timeout / launch faults / cancel before intake x exit codes '
@@ -883,6 +885,9 @@ def run(ctx):
 def replay(ctx, data):
     global _sbox
     r = data['replay']
+    if r.get('noop'):
+        from checks import c07_noop
+        return c07_noop.replay_noop(r)
     scn = [s for s in scenarios(True) if s['name'] == r['scenario']][0]
     _sbox = os.path.join(ctx.scratch, 'sbox')
     os.makedirs(_sbox, exist_ok=True)
